@@ -622,7 +622,7 @@ fn run_attempt(plan: &Plan, opts: &Opts, t_ms: u64) -> Outcome1 {
                 });
             }
             if back && ret == Some(Ret::Accepted) {
-                if load_b != Some(0) {
+                if matches!(load_b, Some(x) if x != 0) {
                     out.problems.push(Problem {
                         ty: "contract",
                         sig: json!({"site": "pool", "kind": "counter-not-zero-after-all-workers-retired"}),
